@@ -39,6 +39,37 @@ FIRST = {  # outcome of the first run, before any strengthening, and what was st
  "C14/m6": ("missed", "purity stream: a second Spec file with Spec-level edits; the same request repeated 24 times on one cache"),
  "C17/m5": ("missed by C17 (C19 reported it)", "the validate-tool cases of the cli stream also run under C17"),
  "C19/m6": ("missed", "cli stream: fixed layouts with two files of one directory in conflict"),
+ # round 4 (m7, m8)
+ "C01/m7": ("missed", "cache stream: the cache first has the same directories in another order (or one twice), then is given the list (`predirs`)"),
+ "C01/m8": ("missed", "cache stream: histories on one cache - an earlier population is scanned first, then files are rewritten in place with the same size and modification time, repaired, broken, added, removed (`prelayout`)"),
+ "C02/m7": ("missed", "cache stream: every listed device injected through an auto-refresh cache created while no descriptor was free (no watcher: every query rescans)"),
+ "C03/m7": ("missed", "apply stream: the host nodes behind the fixed host paths change from case to case"),
+ "C04/m7": ("missed", "cache stream: requests of 9-14 names most of which do not resolve"),
+ "C04/m8": ("missed", "cache stream: every injection repeated on the same cache - the same request twice, after a request that fails half-way, the same failing request twice"),
+ "C06/m7": ("missed", "version stream: every feature with unusual values of the same feature (zero group ids, an all-default intelRdt block, odd mount types and host paths)"),
+ "C06/m8": ("missed (a schedule, outside the property's quantifier)", "version stream: the same Specs blown up to 20000 devices and evaluated by 32 goroutines"),
+ "C09/m7": ("missed", "codec stream: twelve goroutines write their own Specs under their own names through one cache, each reading its file back after every write"),
+ "C09/m8": ("missed", "codec stream: each kind of edit alone at Spec level and at device level"),
+ "C10/m8": ("reported without a failing input (F6 writeCalls fact; the trigger needs a stale temporary file, a disk filling part-way and reclaimed space)", ""),
+ "C11/m7": ("missed", "watch stream: a query falls into a slow scan of the watcher goroutine (`slowscan`); obligation F9_scan_and_publication_atomic"),
+ "C11/m8": ("missed", "watch stream: operations tagged with a directory are executed on it (they had not been); a later directory goes away and comes back overriding a device that still resolves; observation through one InjectDevices call and nothing else"),
+ "C12/m7": ("reported without a failing input (F9: RLock is not a guard)", "race stream: query-only sets on an auto-refresh cache with a directory that does not exist (the race detector now supplies the replay)"),
+ "C12/m8": ("missed", "race stream: transient Specs written and removed while the directory is rescanned and listed, for six seconds (`Churn`, `RefreshList`)"),
+ "C13/m7": ("missed", "the same `prelayout` histories (files behind symbolic links repaired in place)"),
+ "C13/m8": ("missed", "cache stream: sockets and character devices under Spec names"),
+ "C14/m7": ("missed", "purity stream: group ids with zeros; ApplyEdits of cached devices and Specs, twice, against a fresh cache"),
+ "C14/m8": ("missed", "purity stream: a request that resolves its devices and then fails before every injection"),
+ "C15/m8": ("reported (the prefix-boundary keys had been added after reading the report, before the first run)", ""),
+ "C17/m7": ("missed", "schema stream: other spellings of the same JSON document (escaped solidus, \\u escapes incl. surrogate pairs, indentation)"),
+ "C17/m8": ("missed", "schema stream: the first use of the builtin schema by 32 goroutines at once, in twelve fresh processes"),
+ "C19/m7": ("missed", "cli stream: a Spec valid for the library and invalid for the schema, under the validator the tool installs (--schema builtin / none)"),
+ "C19/m8": ("missed", "cli stream: documents beyond 1 MiB for the validate tool, as a file and on standard input"),
+ "C20/m8": ("missed", "reconf stream: Configure while another goroutine is in the middle of the first use of the default cache (slow default directories)"),
+ # round 5 (m9, m10)
+ "C01/m9": ("missed", "watch stream: vendor and class listings are part of the compared image and are asked for once before anything changes"),
+ "C03/m9": ("missed", "apply stream: a prelude on a scratch copy of the OCI spec (the same edit object applied there, then overwritten by foreign edits)"),
+ "C04/m9": ("missed", "cache stream: all Spec files removed, refresh, the same request into the OCI spec that was injected into last"),
+ "C04/m10": ("missed", "default-cache child: the nil-spec injection is the first thing the process does with the package"),
 }
 rows = []
 for d in sorted(glob.glob("/verif/seeded/C*/m*")):
